@@ -232,7 +232,28 @@ class ZarrModule:
 
     def open_group(self, **k):
         self.c.ctx.effect("zarr", "open_group", k)
-        return Opaque("group")
+        return GroupStub(self)
+
+
+class GroupStub:
+    """zarr.Group of a structured (multi-field) array: create_array refuses an existing field array unless
+    overwrite=True (which deletes it first)"""
+
+    def __init__(self, z):
+        self.z = z
+
+    def create_array(self, name, **k):
+        self.z.c.ctx.effect("zarr", "group.create_array", dict(k, name=name))
+        if self.z.exists and not k.get("overwrite", False):
+            raise PyExc(ExternalStub("zarr.errors.ContainsArrayError", self.z.c.interp.world), ("exists",))
+        return Opaque("new-field-array" if not self.z.exists else "wiped-field-array")
+
+    def _pyvc_getitem(self, interp, name):
+        self.z.c.ctx.effect("zarr", "group.getitem", dict(name=name))
+        return Opaque("existing-field-array")
+
+    def __getitem__(self, name):
+        return self._pyvc_getitem(None, name)
 
 
 @register
@@ -245,7 +266,7 @@ class OpenZarrV3Array(FuncSpec):
     props = ("C06", "C09")
 
     def configs(self, tier):
-        return [dict(mode=m, exists=e) for m in ("r", "r+", "a", "w-") for e in (False, True)]
+        return [dict(mode=m, exists=e, structured=s_) for m in ("r", "r+", "a", "w-") for e in (False, True) for s_ in (False, True)]
 
     def install(self, c):
         z = ZarrModule(c, c.cfg["exists"])
@@ -254,13 +275,44 @@ class OpenZarrV3Array(FuncSpec):
         mod.globals["zarr"] = z
         mod.globals["obstore"] = None
 
+        class FieldArrays(dict):
+            """stands in for ZarrV3ArrayGroup (a dict subclass holding the field arrays; not interpreted)"""
+
+            def __init__(self, shape=None, dtype=None, chunks=None):
+                dict.__init__(self)
+                self.shape, self.dtype, self.chunks = shape, dtype, chunks
+
+        mod.globals["ZarrV3ArrayGroup"] = FieldArrays
+
     def setup(self, c):
-        return ("/tmp/some/store.zarr", c.cfg["mode"]), dict(shape=(4,), dtype=Opaque("float64", fields=None), chunks=(2,), path="p")
+        if c.cfg.get("structured"):
+            # a structured dtype (mean/var intermediates): one Zarr array per field inside a group
+            dt = Opaque("struct", fields={"n": (Opaque("int64"), 0), "total": (Opaque("float64"), 8)})
+        else:
+            dt = Opaque("float64", fields=None)
+        return ("/tmp/some/store.zarr", c.cfg["mode"]), dict(shape=(4,), dtype=dt, chunks=(2,), path="p")
 
     def ensures(self, c, a, k, res):
         eff = [(e[1], e[2]) for e in c.ctx.effects if e[0] == "zarr"]
         names = [e[0] for e in eff]
         m, ex = c.cfg["mode"], c.cfg["exists"]
+        if c.cfg.get("structured"):
+            fields = ["n", "total"]
+            yield "group-opened-in-the-requested-mode", names[:1] == ["open_group"] and eff[0][1].get("mode") == m
+            per = [(n, kw.get("name")) for n, kw in eff[1:]]
+            if m in ("r", "r+"):
+                yield "read-modes-only-open-the-fields", per == [("group.getitem", f) for f in fields]
+            elif ex:
+                want = []
+                for f in fields:
+                    want += [("group.create_array", f), ("group.getitem", f)]
+                yield "append-opens-every-existing-field-after-create-refused", m == "a" and per == want
+                yield "existing-field-arrays-returned", all(res[f]._label == "existing-field-array" for f in fields)
+            else:
+                yield "creates-every-field-when-absent", per == [("group.create_array", f) for f in fields]
+            for n, kw in eff:
+                yield f"never-overwrites[{n}:{kw.get('name', '')}]", not kw.get("overwrite", False) and kw.get("mode") not in ("w",)
+            return
         if m in ("r", "r+"):
             yield "read-modes-only-open", names == ["open_array"]
         elif ex:
@@ -275,6 +327,35 @@ class OpenZarrV3Array(FuncSpec):
         if isinstance(e.etype, ExternalStub) and e.etype._qual.endswith("ContainsArrayError"):
             return c.cfg["exists"] and c.cfg["mode"] not in ("a", "r", "r+")
         return None
+
+    def replay(self, cfg, model, ob):
+        """native: create the array, write to it, open it again in the configuration's mode — the data must survive"""
+        if not cfg.get("exists") or cfg.get("mode") not in ("a", "r", "r+"):
+            return None
+        return f"""
+import tempfile, shutil
+import numpy as np
+from cubed.storage.stores.zarr_python_v3 import open_zarr_v3_array
+d = tempfile.mkdtemp(prefix="pyvc-replay-")
+try:
+    dt = np.dtype([("n", "i8"), ("total", "f8")]) if {bool(cfg.get("structured"))!r} else np.dtype("f8")
+    a = open_zarr_v3_array(d + "/s.zarr", "a", shape=(4,), dtype=dt, chunks=(2,), path="p")
+    if dt.fields:
+        for f in dt.fields:
+            a[f][:] = np.ones(4, dtype=dt.fields[f][0])
+    else:
+        a[:] = np.ones(4)
+    b = open_zarr_v3_array(d + "/s.zarr", {cfg["mode"]!r}, shape=(4,), dtype=dt, chunks=(2,), path="p")
+    if dt.fields:
+        vals = [np.asarray(b[f][:]) for f in dt.fields]
+    else:
+        vals = [np.asarray(b[:])]
+    lost = [v.tolist() for v in vals if not (v == 1).all()]
+    reproduced = bool(lost)
+    detail = f"chunks written before the array was opened again (mode {cfg["mode"]!r}) were wiped: {{lost}}" if lost else "data survived re-opening"
+finally:
+    shutil.rmtree(d, ignore_errors=True)
+"""
 
 
 @register
